@@ -55,7 +55,13 @@ func runC05(c *Ctx) {
 	checkBounds(c, "R05.1", fns, c05Table, c05Assumptions...)
 	c.min("R05.1", 15)
 
-	// R05.2
+	dencoStructural(c, "R05.2", "R05.3", "R05.4", "R05.5")
+}
+
+// dencoStructural: the structural rules of the trie (shared by C05 and, as its dispatch relies on them, C01).
+func dencoStructural(c *Ctx, r2, r3, r4, r5 string) {
+	p := c.P
+	// order independence, static map
 	bld := p.Fn("(*rt/middleware/denco.doubleArray).build")
 	sorts := callsIn(bld, "sort.Stable", "sort.Sort")
 	arr := callsIn(bld, "(*rt/middleware/denco.doubleArray).arrange")
@@ -68,7 +74,7 @@ func runC05(c *Ctx) {
 			}
 		}
 	}
-	c.obF("R05.2", bld, "sorted-before-arranged", okSort, "build sorts the records it was given before arranging siblings (the double array does not depend on insertion order)", "no sort of srcs dominating arrange")
+	c.obF(r2, bld, "sorted-before-arranged", okSort, "build sorts the records it was given before arranging siblings (the double array does not depend on insertion order)", "no sort of srcs dominating arrange")
 	fb := p.Fn("(*rt/middleware/denco.doubleArray).findBase")
 	used := fb.Params[3]
 	isReserve := func(in ssa.Instruction) bool {
@@ -83,7 +89,7 @@ func runC05(c *Ctx) {
 				okKey = sameOrigins(mu.Key, r.Results[0]) || mu.Key == r.Results[0]
 			}
 		}
-		c.obI("R05.2", r, "every-base-reserved", !miss && okKey, "every base returned by findBase is recorded in usedBase (two nodes never share a base)", "findBase can return a base without reserving it")
+		c.obI(r2, r, "every-base-reserved", !miss && okKey, "every base returned by findBase is recorded in usedBase (two nodes never share a base)", "findBase can return a base without reserving it")
 	}
 	// skipping used bases
 	nUsedTest := 0
@@ -92,7 +98,7 @@ func runC05(c *Ctx) {
 			nUsedTest++
 		}
 	}
-	c.obF("R05.2", fb, "used-bases-skipped", nUsedTest >= 1, "findBase consults usedBase before choosing a base", "")
+	c.obF(r2, fb, "used-bases-skipped", nUsedTest >= 1, "findBase consults usedBase before choosing a base", "")
 	rb := p.Fn("(*rt/middleware/denco.Router).Build")
 	mr := callsIn(rb, "rt/middleware/denco.makeRecords")
 	okStatic := false
@@ -106,7 +112,7 @@ func runC05(c *Ctx) {
 			}
 		}
 	}
-	c.obF("R05.2", rb, "statics-registered", okStatic, "every parameter-free record is stored in the static map", "")
+	c.obF(r2, rb, "statics-registered", okStatic, "every parameter-free record is stored in the static map", "")
 	rl := p.Fn("(*rt/middleware/denco.Router).Lookup")
 	var staticLk *ssa.Lookup
 	for _, in := range instrs(rl) {
@@ -121,19 +127,19 @@ func runC05(c *Ctx) {
 			okFirst = okFirst && guardedBy(ci, staticLk, factBool(vIs(okv), false))
 		}
 	}
-	c.obF("R05.2", rl, "static-first", okFirst, "Lookup consults the static map with the whole path first: a path equal to a parameter-free pattern returns that pattern's value", "")
+	c.obF(r2, rl, "static-first", okFirst, "Lookup consults the static map with the whole path first: a path equal to a parameter-free pattern returns that pattern's value", "")
 	mk := p.Fn("rt/middleware/denco.makeRecords")
 	// records classified by the three parameter markers; termination byte appended to parameterised keys
 	nContains := len(callsIn(mk, "strings.Contains"))
-	c.obF("R05.2", mk, "classification", nContains == 3, "records are parameterised iff their key contains '/:', '/*' or '=:'", fmt.Sprintf("%d marker tests", nContains))
+	c.obF(r2, mk, "classification", nContains == 3, "records are parameterised iff their key contains '/:', '/*' or '=:'", fmt.Sprintf("%d marker tests", nContains))
 
 	// R05.3
 	mb := p.Fn("(*rt/middleware/denco.Mux).Build")
 	for _, ci := range callsIn(mb, "rt/middleware/denco.NewRecord") {
 		v := unboxed(ci.Common().Args[1])
-		c.obI("R05.3", ci, "mux-stores-HandlerFunc", typeStr(v.Type()) == "rt/middleware/denco.HandlerFunc", "the mux only registers HandlerFunc values, so serveMux.handler's unchecked type assertion cannot fail", "registers a "+typeStr(v.Type()))
+		c.obI(r3, ci, "mux-stores-HandlerFunc", typeStr(v.Type()) == "rt/middleware/denco.HandlerFunc", "the mux only registers HandlerFunc values, so serveMux.handler's unchecked type assertion cannot fail", "registers a "+typeStr(v.Type()))
 	}
-	c.min("R05.3", 1)
+	c.min(r3, 1)
 
 	// R05.4 NextSeparator stop set
 	ns := p.Fn("rt/middleware/denco.NextSeparator")
@@ -148,14 +154,14 @@ func runC05(c *Ctx) {
 			continue
 		}
 		nCmp++
-		c.obI("R05.4", bo, "separator-set", k == '/' || k == '#', "a single-segment parameter ends only at '/' or at the termination byte", fmt.Sprintf("stops at byte %q", rune(k)))
+		c.obI(r4, bo, "separator-set", k == '/' || k == '#', "a single-segment parameter ends only at '/' or at the termination byte", fmt.Sprintf("stops at byte %q", rune(k)))
 	}
-	c.obF("R05.4", ns, "separator-tests", nCmp == 2, "NextSeparator tests exactly the two terminators", fmt.Sprintf("%d byte comparisons", nCmp))
+	c.obF(r4, ns, "separator-tests", nCmp == 2, "NextSeparator tests exactly the two terminators", fmt.Sprintf("%d byte comparisons", nCmp))
 	for _, r := range returnsOf(ns) {
 		b := &bctx{c: c, fn: ns, assumeLE: map[[2]*ssa.Parameter]bool{{ns.Params[1], ns.Params[0]}: true}, assumeNonNeg: map[*ssa.Parameter]bool{ns.Params[1]: true}, assumeLT: map[ltAssume]bool{}}
 		okLE := b.le(r.Results[0], ns.Params[0], r, visit{})
 		okGE := b.geParam(r.Results[0], ns.Params[1], visit{})
-		c.obI("R05.4", r, "result-in-range", okLE && okGE, "NextSeparator(path, start) returns a value in [start, len(path)] whenever start <= len(path)", fmt.Sprintf("<=len:%v >=start:%v", okLE, okGE))
+		c.obI(r4, r, "result-in-range", okLE && okGE, "NextSeparator(path, start) returns a value in [start, len(path)] whenever start <= len(path)", fmt.Sprintf("<=len:%v >=start:%v", okLE, okGE))
 	}
 
 	// R05.5 backtracking completeness
@@ -163,7 +169,7 @@ func runC05(c *Ctx) {
 	single := callsIn(lk, "(rt/middleware/denco.baseCheck).IsSingleParam")
 	wild := callsIn(lk, "(rt/middleware/denco.baseCheck).IsWildcardParam")
 	anyp := callsIn(lk, "(rt/middleware/denco.baseCheck).IsAnyParam")
-	c.obF("R05.5", lk, "param-kinds", len(single) == 1 && len(wild) == 1 && len(anyp) == 1, "lookup distinguishes single and wildcard parameter nodes", fmt.Sprintf("%d/%d/%d", len(single), len(wild), len(anyp)))
+	c.obF(r5, lk, "param-kinds", len(single) == 1 && len(wild) == 1 && len(anyp) == 1, "lookup distinguishes single and wildcard parameter nodes", fmt.Sprintf("%d/%d/%d", len(single), len(wild), len(anyp)))
 	if len(single) == 1 && len(wild) == 1 {
 		// natural loop containing the IsSingleParam test: every path from the test back to the loop header passes the wildcard test
 		sb := single[0].Block()
@@ -187,7 +193,7 @@ func runC05(c *Ctx) {
 		if ok {
 			ok = !pathExists(lk, single[0], lastInstr(header), nil, isOneOf(wild[0]))
 		}
-		c.obI("R05.5", single[0], "wildcard-tried-for-every-candidate", ok, "for every candidate node of the backtracking loop, the wildcard alternative is examined whenever the single-parameter alternative did not return a match", "an iteration can move to the next candidate without testing IsWildcardParam")
+		c.obI(r5, single[0], "wildcard-tried-for-every-candidate", ok, "for every candidate node of the backtracking loop, the wildcard alternative is examined whenever the single-parameter alternative did not return a match", "an iteration can move to the next candidate without testing IsWildcardParam")
 	}
 	// candidate stack only grows in the walk
 	for _, in := range instrs(lk) {
@@ -196,7 +202,7 @@ func runC05(c *Ctx) {
 			continue
 		}
 		_, trunc := call.Call.Args[0].(*ssa.Slice)
-		c.obI("R05.5", call, "candidates-accumulate", !trunc, "the candidate stack is appended to, never re-sliced, during the literal walk (every parameter-capable node on the way stays a backtracking candidate)", "append onto a re-sliced stack drops earlier candidates")
+		c.obI(r5, call, "candidates-accumulate", !trunc, "the candidate stack is appended to, never re-sliced, during the literal walk (every parameter-capable node on the way stays a backtracking candidate)", "append onto a re-sliced stack drops earlier candidates")
 	}
 	// names from the matched node
 	for _, st := range fieldStores(rl, "rt/middleware/denco.Param", "Name") {
@@ -209,7 +215,7 @@ func runC05(c *Ctx) {
 				}
 			}
 		}
-		c.obI("R05.5", st, "names-by-position", ok, "the i-th captured value is named by the i-th placeholder name of the matched node", "")
+		c.obI(r5, st, "names-by-position", ok, "the i-th captured value is named by the i-th placeholder name of the matched node", "")
 	}
-	c.min("R05.5", 4)
+	c.min(r5, 4)
 }
